@@ -219,6 +219,7 @@ fn judge_log(
 fn run_server(tier: Tier, rng: &mut Rng, out: &mut Out) {
     out.eval(1);
     let mut cfg = ServerSessionConfig::new();
+    cfg.fms_version = rng.spice(cfg.fms_version.clone());
     cfg.chunk_size = if rng.chance(1, 6) { rng.range(1, 0x7FFF_FFFF) as u32 } else { *rng.pick(&CHUNKS) };
     cfg.window_ack_size = *rng.pick(&[1u32, 100, 2_500_000, 0xFFFF_FFFF]);
     cfg.send_on_bw_done_message_on_start = rng.coin();
@@ -272,6 +273,8 @@ fn run_server(tier: Tier, rng: &mut Rng, out: &mut Out) {
                 if let ms::Op::SendAudio { data, .. } | ms::Op::SendVideo { data, .. } = &mut op {
                     let n = *rng.pick(&[0usize, 1, 127, 128, 129, 5000, 70_000, 200_000]);
                     *data = rng.bytes(n.min(if rig.s_chunk() <= 2 { 3000 } else { 200_000 }));
+                    let t = if rng.coin() { 8 } else { 9 };
+                    rng.flv_prefix(t, data);
                 }
                 let stream = match &op {
                     ms::Op::Accept { id } | ms::Op::Reject { id } => match model.outstanding.get(id) {
@@ -347,6 +350,10 @@ impl ChunkOf for ClientRig {
 fn run_client(tier: Tier, rng: &mut Rng, out: &mut Out) {
     out.eval(1);
     let mut cfg = ClientSessionConfig::new();
+    cfg.flash_version = rng.spice(cfg.flash_version.clone());
+    if rng.chance(1, 4) {
+        cfg.tc_url = Some(rng.spice("rtmp://host/app".to_string()));
+    }
     cfg.chunk_size = if rng.chance(1, 6) { rng.range(1, 0x7FFF_FFFF) as u32 } else { *rng.pick(&CHUNKS) };
     cfg.window_ack_size = *rng.pick(&[1u32, 100, 2_500_000, 0xFFFF_FFFF]);
     cfg.playback_buffer_length_ms = rng.u32_boundary();
@@ -380,6 +387,8 @@ fn run_client(tier: Tier, rng: &mut Rng, out: &mut Out) {
             if let mc::Op::PublishAudio { data, .. } | mc::Op::PublishVideo { data, .. } = &mut op {
                 let n = *rng.pick(&[0usize, 1, 127, 128, 129, 5000, 70_000, 200_000]);
                 *data = rng.bytes(n.min(if rig.s_chunk() <= 2 { 3000 } else { 200_000 }));
+                    let t = if rng.coin() { 8 } else { 9 };
+                    rng.flv_prefix(t, data);
             }
             // the stream the emitted stream-level messages belong to
             let stream = match &op {
